@@ -373,9 +373,12 @@ class Core(composites.Composite):
         else:
             runLog.debug("Purging  {0} from {1}".format(a1, self))
 
-        self.childrenByLocator.pop(a1.spatialLocator)
-        a1.p.dischargeTime = self.r.p.time
+        # raises ValueError, before anything is changed, when a1 is not an assembly of this core
+        # (its locator may name a cell that holds another assembly)
+        locator = a1.spatialLocator
         self.remove(a1)
+        self.childrenByLocator.pop(locator)
+        a1.p.dischargeTime = self.r.p.time
 
         if discharge and self._trackAssems:
             if self.parent.excore.get("sfp") is not None:
